@@ -357,6 +357,10 @@ package route
 
 //@ func addLeaf
 //@   props C08 C01
+// a failed registration leaves every list of the tree as it was (nothing dangling gets in the way of a later registration)
+//@   ensures[C08] result1 != nil ==> forall n *baseTree :: old(live(n)) ==> n.subtrees == old(n.subtrees) && n.leaves == old(n.leaves)
+//@   ensures[C08] result1 != nil ==> forall n *baseTree, k int :: old(live(n)) && 0 <= k && k < len(old(n.subtrees)) ==> n.subtrees[k] == old(n.subtrees[k])
+//@   ensures[C08] result1 != nil ==> forall n *baseTree, k int :: old(live(n)) && 0 <= k && k < len(old(n.leaves)) ==> n.leaves[k] == old(n.leaves[k])
 //@   loop 1 invariant[C01,C08] leaves == nodeOf(t).leaves && leaf != nil && (forall k int :: 0 <= k && k < i ==> leafStyle(leaves[k]) <= leafStyle(leaf))
 //@   loop 1 invariant[C01,C08] forall k int :: 0 <= k && k < len(leaves) ==> nodeOf(t).snapLeaves[k] == leaves[k]
 //@   ghost after getLeaves#1: nodeOf(t).snapLeaves = seqof(nodeOf(t).leaves)
@@ -377,9 +381,18 @@ package route
 
 //@ func addSubtree
 //@   props C08 C01
+// a failed registration leaves every list of the tree as it was (nothing dangling gets in the way of a later registration)
+//@   ensures[C08] result1 != nil ==> forall n *baseTree :: old(live(n)) ==> n.subtrees == old(n.subtrees) && n.leaves == old(n.leaves)
+//@   ensures[C08] result1 != nil ==> forall n *baseTree, k int :: old(live(n)) && 0 <= k && k < len(old(n.subtrees)) ==> n.subtrees[k] == old(n.subtrees[k])
+//@   ensures[C08] result1 != nil ==> forall n *baseTree, k int :: old(live(n)) && 0 <= k && k < len(old(n.leaves)) ==> n.leaves[k] == old(n.leaves[k])
 //@   loop 1 invariant[C01,C08] subtrees == nodeOf(t).subtrees && isTreeChild(subtree) && (forall k int :: 0 <= k && k < i ==> style(subtrees[k]) <= style(subtree))
 //@   loop 1 invariant[C01,C08] forall k int :: 0 <= k && k < len(subtrees) ==> nodeOf(t).snapTrees[k] == subtrees[k]
 //@   ghost after getSubtrees#1: nodeOf(t).snapTrees = seqof(nodeOf(t).subtrees)
+// (the rest of the route is added before the new subtree is linked into t; these three facts about the state after
+// that call are proved here once and then used by the insertion below)
+//@   assert before getSubtrees#1: live(nodeOf(t))
+//@   assert before getSubtrees#1: treeWF()
+//@   assert before getSubtrees#1: isTreeChild(subtree) && live(nodeOf(subtree))
 //@   assert[C01,C08] before setSubtrees#0: len(subtrees) == len(nodeOf(t).subtrees) + 1 && subtrees[i] == subtree &&
 //@       (forall k int :: 0 <= k && k < i ==> subtrees[k] == nodeOf(t).snapTrees[k]) && (forall k int :: i < k && k < len(subtrees) ==> subtrees[k] == nodeOf(t).snapTrees[k - 1])
 //@   assert[C01] before setSubtrees#0: (forall k int :: 0 <= k && k < i ==> style(nodeOf(t).snapTrees[k]) <= style(subtree)) &&
@@ -395,6 +408,10 @@ package route
 
 //@ func addNextSegment
 //@   props C08 C01
+// a failed registration leaves every list of the tree as it was (nothing dangling gets in the way of a later registration)
+//@   ensures[C08] result1 != nil ==> forall n *baseTree :: old(live(n)) ==> n.subtrees == old(n.subtrees) && n.leaves == old(n.leaves)
+//@   ensures[C08] result1 != nil ==> forall n *baseTree, k int :: old(live(n)) && 0 <= k && k < len(old(n.subtrees)) ==> n.subtrees[k] == old(n.subtrees[k])
+//@   ensures[C08] result1 != nil ==> forall n *baseTree, k int :: old(live(n)) && 0 <= k && k < len(old(n.leaves)) ==> n.leaves[k] == old(n.leaves[k])
 //@   ensures len(r.Segments) > next + 1 && r.Segments[next].Optional ==> result1 != nil
 //@   requires treeWF() && isTree(t) && routeWF(r) && h != nil && 0 <= next && next < len(r.Segments)
 //@   requires forall k int :: 0 <= k && k < next ==> !r.Segments[k].Optional
@@ -405,6 +422,10 @@ package route
 
 //@ func AddRoute
 //@   props C08 C01
+// a failed registration leaves every list of the tree as it was (nothing dangling gets in the way of a later registration)
+//@   ensures[C08] result1 != nil ==> forall n *baseTree :: old(live(n)) ==> n.subtrees == old(n.subtrees) && n.leaves == old(n.leaves)
+//@   ensures[C08] result1 != nil ==> forall n *baseTree, k int :: old(live(n)) && 0 <= k && k < len(old(n.subtrees)) ==> n.subtrees[k] == old(n.subtrees[k])
+//@   ensures[C08] result1 != nil ==> forall n *baseTree, k int :: old(live(n)) && 0 <= k && k < len(old(n.leaves)) ==> n.leaves[k] == old(n.leaves[k])
 //@   requires treeWF() && isTree(t) && h != nil && (r == nil || len(r.Segments) == 0 || routeWF(r))
 //@   modifies baseTree.leaves, baseTree.subtrees, baseTree.snapLeaves, baseTree.snapTrees, elems(type([]Leaf)), elems(type([]Tree)), Segment.str, Segment.strOnce.fired, Route.str, Route.strOnce.fired
 //@   ensures treeWF()
